@@ -56,6 +56,9 @@ type wireEnv struct {
 
 	mu     sync.Mutex
 	frames [][]byte // payload of every frame received (other than tcp.ping) since the case began
+	// planned: answers of the running case chosen by the case itself, by query bytes (answer_test.go); a query
+	// without an entry gets wireAnswer. Still a pure function of the query for the duration of a case.
+	planned map[string][]byte
 	onBad  func()   // called when a frame arrives that cannot be answered (no adnl.message.query with a byte string) or that watch refuses
 	watch  func(p []byte) bool
 }
@@ -115,6 +118,10 @@ func wireGet(su *setup) (*wireEnv, error) {
 			}
 			env.mu.Lock()
 			env.frames = append(env.frames, p)
+			answer, isPlanned := []byte(nil), false
+			if ok {
+				answer, isPlanned = env.planned[string(body)]
+			}
 			bad := env.onBad
 			if env.watch != nil && !env.watch(p) && bad != nil {
 				defer bad() // after the answer: the callers stop waiting for answers that cannot reach them
@@ -126,7 +133,10 @@ func wireGet(su *setup) (*wireEnv, error) {
 				}
 				return true
 			}
-			return c.WriteFrame(adnlsrv.Answer(id, wireAnswer(env.schema, body))) == nil
+			if !isPlanned {
+				answer = wireAnswer(env.schema, body)
+			}
+			return c.WriteFrame(wireAnswerFrame(env.schema, id, answer)) == nil
 		})
 	}})
 	if err != nil {
@@ -176,7 +186,34 @@ type wireStep struct {
 	desc  string
 	wantQ []byte // reference bytes of the byte string adnl.message.query carries
 	typed bool
-	call  func(ctx context.Context, cl *liteclient.Client) ([]byte, error)
+	// call returns what Client.Request returned (raw steps) or the first result of the typed method
+	call func(ctx context.Context, cl *liteclient.Client) ([]byte, reflect.Value, error)
+
+	// answer_test.go: the answer the server gives to exactly this query (planned), instead of wireAnswer
+	planned bool
+	answer  []byte       // content of answer:bytes of adnl.message.answer
+	resT    *target      // typed, answer is a value of the result type: its binding
+	wantV   *tlref.Value // … and the value the method must return
+	errCode uint32       // typed, answer is liteServer.error: what the method must hand back
+	errMsg  string
+}
+
+// wireAnswerFrame is the reference layout of adnl.message.answer query_id:int256 answer:bytes (schema line of
+// lite_api.tl, R5 encoder) around the answer bytes.
+func wireAnswerFrame(s *tlref.Schema, id [32]byte, answer []byte) []byte {
+	con := s.Constructor("adnl.message.answer")
+	if con == nil || len(con.Fields) != 2 {
+		return adnlsrv.Answer(id, answer)
+	}
+	v := &tlref.Value{Kind: tlref.KObject, Con: con, Fields: []*tlref.Value{tlref.VInt256(id[:]), tlref.VBytes(answer)}}
+	out, err := s.EncodeBoxed(nil, v)
+	if err != nil {
+		panic("harness error: reference encoder: " + err.Error())
+	}
+	if ref := adnlsrv.Answer(id, answer); !bytes.Equal(out, ref) {
+		panic(fmt.Sprintf("harness error: the two reference encoders of adnl.message.answer disagree on an answer of %d bytes", len(answer)))
+	}
+	return out
 }
 
 // frameLen is the size of the reference frame before and after padding.
@@ -217,8 +254,9 @@ func wireRawStep(n int, seed uint64, nonzero bool) wireStep {
 	return wireStep{
 		desc:  fmt.Sprintf("Request(q) with len(q)=%d", n),
 		wantQ: q,
-		call: func(ctx context.Context, cl *liteclient.Client) ([]byte, error) {
-			return cl.Request(ctx, append([]byte{}, q...))
+		call: func(ctx context.Context, cl *liteclient.Client) ([]byte, reflect.Value, error) {
+			ret, err := cl.Request(ctx, append([]byte{}, q...))
+			return ret, reflect.Value{}, err
 		},
 	}
 }
@@ -258,45 +296,62 @@ func wireTypedStep(su *setup, f *tlref.Combinator, v *tlref.Value, form int, rnd
 	setSliceForm(gv, form, rnd)
 	method := mi.method
 	hasArg := len(f.Fields) > 0
+	code, msg := wireErrorOf(wantQ)
 	return wireStep{
-		desc:  fmt.Sprintf("%s (function id + arguments = %d bytes)", mi.name, len(inner)),
-		wantQ: wantQ,
-		typed: true,
-		call: func(ctx context.Context, cl *liteclient.Client) ([]byte, error) {
+		desc:    fmt.Sprintf("%s (function id + arguments = %d bytes)", mi.name, len(inner)),
+		wantQ:   wantQ,
+		typed:   true,
+		errCode: code,
+		errMsg:  msg,
+		call: func(ctx context.Context, cl *liteclient.Client) ([]byte, reflect.Value, error) {
 			in := []reflect.Value{reflect.ValueOf(cl), reflect.ValueOf(ctx)}
 			if hasArg {
 				in = append(in, gv)
 			}
 			out := method.Func.Call(in)
 			e, _ := out[1].Interface().(error)
-			return nil, e
+			return nil, out[0], e
 		},
 	}, nil
 }
 
 // judge looks at what a call returned. inconclusive: the client reports a transport error.
-func (st *wireStep) judge(s *tlref.Schema, ret []byte, err error) (verdict error, inconclusive bool) {
+func (st *wireStep) judge(s *tlref.Schema, ret []byte, res reflect.Value, err error) (verdict error, inconclusive bool) {
 	if err != nil && liteclient.IsClientError(err) {
 		return nil, true
 	}
+	if st.typed && st.wantV != nil {
+		return st.judgeResult(s, res, err), false
+	}
 	if st.typed {
-		code, msg := wireErrorOf(st.wantQ)
+		code, msg := st.errCode, st.errMsg
 		le, ok := err.(liteclient.LiteServerErrorC)
 		if !ok {
-			return fmt.Errorf("%s: the server answered with liteServer.error{code=%#x message=%q}, the method returns %T %v", st.desc, code, msg, err, err), false
+			return fmt.Errorf("%s: the server answered with liteServer.error{code=%#x message=%s}, the method returns %T %v", st.desc, code, clipStr(msg), err, err), false
 		}
 		if le.Code != code || le.Message != msg {
-			return fmt.Errorf("%s: the server answered with liteServer.error{code=%#x message=%q}, the method returns %+v", st.desc, code, msg, le), false
+			return fmt.Errorf("%s: the server answered with liteServer.error{code=%#x message=%s}, the method returns code=%#x message=%s", st.desc, code, clipStr(msg), le.Code, clipStr(le.Message)), false
 		}
 		return nil, false
 	}
 	if err != nil {
 		return fmt.Errorf("%s: %v", st.desc, err), false
 	}
-	if want := wireAnswer(s, st.wantQ); !bytes.Equal(ret, want) {
+	want := st.answer
+	if !st.planned {
+		want = wireAnswer(s, st.wantQ)
+	}
+	if !bytes.Equal(ret, want) {
 		return fmt.Errorf("%s: returns other bytes than adnl.message.answer carried (returned / answer): %s", st.desc, diffAt(ret, want)), false
 	}
 	return nil, false
+}
+
+func clipStr(m string) string {
+	if len(m) > 64 {
+		return fmt.Sprintf("%q…(%d bytes)", m[:64], len(m))
+	}
+	return fmt.Sprintf("%q", m)
 }
 
 func wireHistory(steps []wireStep, upTo int) string {
@@ -395,12 +450,26 @@ func wireRun(c *core.Ctx, su *setup, prelude []wireStep, seqs [][]wireStep, proc
 			wireDrop(env)
 		}
 	}()
+	var planned map[string][]byte
+	for _, steps := range append([][]wireStep{prelude}, seqs...) {
+		for i := range steps {
+			if st := &steps[i]; st.planned {
+				if planned == nil {
+					planned = map[string][]byte{}
+				}
+				if prev, dup := planned[string(st.wantQ)]; dup && !bytes.Equal(prev, st.answer) {
+					return fmt.Errorf("harness error: two requests of one case with the same bytes and different planned answers (%s)", st.desc)
+				}
+				planned[string(st.wantQ)] = st.answer
+			}
+		}
+	}
 	env.mu.Lock()
-	env.frames, env.onBad = nil, cancel
+	env.frames, env.onBad, env.planned = nil, cancel, planned
 	env.mu.Unlock()
 	defer func() {
 		env.mu.Lock()
-		env.onBad, env.watch = nil, nil
+		env.onBad, env.watch, env.planned = nil, nil, nil
 		env.mu.Unlock()
 	}()
 	inconclusive := func(why string) error {
@@ -414,9 +483,9 @@ func wireRun(c *core.Ctx, su *setup, prelude []wireStep, seqs [][]wireStep, proc
 		for i := range steps {
 			st := &steps[i]
 			before := env.count()
-			ret, callErr := st.call(ctx, env.client)
+			ret, res, callErr := st.call(ctx, env.client)
 			got := env.since(before)
-			verdict, inc := st.judge(s, ret, callErr)
+			verdict, inc := st.judge(s, ret, res, callErr)
 			if len(got) == 0 {
 				if inc {
 					return true, inconclusive("transport error of the client, no frame reached the server")
@@ -494,12 +563,13 @@ func wireRun(c *core.Ctx, su *setup, prelude []wireStep, seqs [][]wireStep, proc
 			for i := range seqs[g] {
 				st := &seqs[g][i]
 				var ret []byte
+				var res reflect.Value
 				var callErr error
-				if perr := core.Protect(func() error { ret, callErr = st.call(ctx, env.client); return nil }); perr != nil {
+				if perr := core.Protect(func() error { ret, res, callErr = st.call(ctx, env.client); return nil }); perr != nil {
 					results[g][i] = result{verdict: fmt.Errorf("%s: %v", st.desc, perr)}
 					return
 				}
-				v, inc := st.judge(s, ret, callErr)
+				v, inc := st.judge(s, ret, res, callErr)
 				results[g][i] = result{v, inc}
 				if inc {
 					return
